@@ -475,6 +475,31 @@ WITNESS_FRAMES = [[["1.0", "2.0", "3.0"], ["4.0", "5.0", "6.283185"]], [["1.5", 
 WITNESS_BOUNDS = [0, 43, 81]
 
 
+def replay_corpus(ctx, ep, rf):
+    """corpus/C13/*.json (witnesses of past findings) against the real readers, before anything else"""
+    import json
+    from common import CORPUS
+    for f in sorted((CORPUS / "C13").glob("*.json")):
+        obj = json.loads(f.read_text())
+        r = obj.get("replay", {})
+        kind = r.get("kind")
+        if kind not in ("xyz", "lmp"):
+            continue
+        fn = ep.xyz_reader if kind == "xyz" else ep.lammpstrj_reader
+        conv = conv_xyz if kind == "xyz" else conv_lmp
+        frames = r["frames"] if kind == "xyz" else [tuple(x) for x in r["frames"]]
+        stages = rf.polls(ep, fn, r["text"].encode(), r["cuts"], conv)
+        bad = (pred_xyz if kind == "xyz" else pred_lmp)(stages, r["cuts"], frames, r["bounds"])
+        ctx.count(1, branch="corpus")
+        ctx.distinct(("corpus", f.name))
+        if bad is not None:
+            sig = obj.get("signature", bad[0])
+            seen = ctx.extra.setdefault("_c13_reported", [])
+            if sig not in seen:
+                seen.append(sig)
+                ctx.fail(sig, f"corpus witness {f.name} fails again: {bad[1]}", dict(r, stage=bad[2]))
+
+
 def run(ctx):
     ep = _imports()
     rng = ctx.rng
@@ -487,6 +512,7 @@ def run(ctx):
                 "file. Non-trivial = at least one cut strictly inside a frame; distinct by (trajectory, cut sequence).")
     try:
         rf = RealFile(tmpdir)
+        replay_corpus(ctx, ep, rf)
         # the recorded witness first (DESIGN C13 probe): 2 atoms, cut inside '6.283185'
         check_text(ctx, ep, rf, "xyz", WITNESS_TEXT, WITNESS_FRAMES, WITNESS_BOUNDS,
                    cut_seqs(len(WITNESS_TEXT), True), "witness")
